@@ -45,6 +45,10 @@ int run(const Args& A) {
             unsigned da = r.pick(std::vector<unsigned>{0, 10, 30, 50, 80, 100});
             unsigned db = r.pick(std::vector<unsigned>{0, 10, 30, 50, 80, 100});
             std::vector<Val> ta = randomTable(r, D, fs[0].k, da), tb = randomTable(r, D, fs[1].k, db);
+            // a third of the operands have structure (identity patterns, redundant and fixed variables): the shapes on
+            // which the operations' shortcuts (terminal / identity / 'result is one operand' exits) fire above level 0
+            if (r.chance(1, 3)) { ta = structuredTable(r, D, fs[0].k, da ? da : 50); STATS.hit("gen.structured"); }
+            if (r.chance(1, 3)) { tb = structuredTable(r, D, fs[1].k, db ? db : 50); STATS.hit("gen.structured"); }
             if (r.chance(1, 8)) tb = ta;
             dd_edge a(fs[0].F), b(fs[1].F);
             buildFromTable(D, fs[0].F, fs[0].k, ta, a);
